@@ -55,6 +55,9 @@ def run(c):
         # reach nobody else
         ws[11] = {"kind": "ptrace", "prog": ["tree", "2", "c17tok%d_a" % si], "cancel_ms": 80}
         ws[12] = {"kind": "ptrace", "prog": ["tree", "2", "c17tok%d_b" % si], "cancel_ms": 150}
+        # a call whose caller has given up before it is made, next to the other calls on the same environment
+        if si % 3 != 0:
+            ws[10] = {"kind": "container", "env": 0, "prog": ["sleep", "500"], "precancel": True, "cancel_ms": 1}
         # several users of ONE environment at once: each opens and reads back its own file again and again, with a Ping now and then
         for wi in (13, 14, 15):
             ws[wi] = {"kind": "openloop", "env": 2, "rounds": 120, "tag": "own-%d-%d" % (si, wi), "prog": ["-"]}
@@ -104,6 +107,14 @@ def run(c):
                                        {"workload": w, "table": b["stdout"]}, klass="foreign-fd")
     if len(obs) < len(cases) and not any(o.get("hang") for o in obs):
         raise RuntimeError("harness stopped after %d of %d sets" % (len(obs), len(cases)))
+    # ---- an environment built on a thread on which a traced run later fails to start: the environment is nobody's run
+    tr = c.run_harness(exe, [{"id": 0, "mode": "thread_retire"}], env=env, timeout=300)[0]
+    if "harness_err" in tr:
+        raise RuntimeError(tr["harness_err"])
+    c.count("thread-retire", nontrivial=True, klass="thread-retire")
+    if tr["ping_err"] or (tr["run_status"], tr["run_exit"]) != (7, 7):       # Nonzero Exit Status 7
+        c.finding_or_violation({"kind": "independence", "what": "an environment dies (or stops answering) when an unrelated traced run on the thread that built it fails to start",
+                                "ping": tr["ping_err"][:60]}, {"observed": tr}, klass="thread-retire")
     # ---- a run that executes a freshly written program through its descriptor, next to a run cloned while the file was still open for writing
     iters = 12 if c.quick() else 80
     eo = c.run_harness(exe, [{"id": 0, "mode": "etxtbsy", "iters": iters, "with_b": False}, {"id": 1, "mode": "etxtbsy", "iters": iters, "with_b": True}], env=env, timeout=600)
